@@ -298,7 +298,7 @@ def _limit_memory():
     resource.setrlimit(resource.RLIMIT_AS, (12 << 30, 12 << 30))
 
 
-def run_harness(binary, args, timeout=1800):
+def run_harness(binary, args, timeout=1800, ok=(0,)):
     try:
         p = subprocess.run([binary] + args, capture_output=True, text=True, timeout=timeout, env=goenv(),
                            preexec_fn=None if "race" in os.path.basename(binary) else _limit_memory)
@@ -306,6 +306,8 @@ def run_harness(binary, args, timeout=1800):
         raise Infra("harness %s: timeout after %ss (signal)\n%s" % (" ".join(args[:3]), timeout, (e.stderr or b"")[-1500:]))
     if p.returncode < 0:
         raise Infra("harness %s died of signal %d\n%s\n[...]\n%s" % (" ".join(args[:3]), -p.returncode, p.stderr[:3000], p.stderr[-1500:]))
+    if p.returncode in ok:
+        return p.returncode
     if p.returncode not in (0,):
         raise Infra("harness %s failed rc=%d\n%s\n%s\n[...]\n%s" % (" ".join(args[:3]), p.returncode, p.stdout[-3000:], p.stderr[:3000], p.stderr[-1500:]))
     return p.stdout
